@@ -60,9 +60,11 @@ impl FlyClientPDF {
     //   - CDF: $$F(x) = \frac{\ln{(1-x)}}{ln{\delta}}$$
     //   - Inverse Function of CDF: $$h(x) = F^{-1}(x) = 1 - \delta^{x}$$
     fn gen_x(&self) -> f64 {
+        // The variable of the inverse function of CDF is uniform in [0, 1): then the result is
+        // in [0, 1 - delta), the whole sampled region.
         let mut rng = thread_rng();
-        let x: f64 = rng.gen_range(0.0..self.x_max);
-        1.0 - self.delta.powf(x)
+        let x: f64 = rng.gen_range(0.0..1.0);
+        (1.0 - self.delta.powf(x)).min(self.x_max)
     }
 
     fn random_sample(&self) -> U256 {
